@@ -97,6 +97,15 @@ _WHERE = {
             "tag.attrs.get(name), CPython.",
             "TLA+ spec (ClassStyle/ClassStyleOps) model-checked with TLC; TLC-generated histories replayed into the "
             "code; recorded histories validated by TLC trace spec (ClassTrace)"),
+    "C19": ("catalogue", "C19",
+            "Exhaustive: TLC enumerates every (module, function, _add_ws argument, argument shape) call over the whole "
+            "catalogue with its required outcome (element name, whitespace default from the project's inline "
+            "classification read at check time, TypeError for a non-boolean _add_ws); every call is made on the real "
+            "function and TLC judges name, flag, exception and equality with the directly constructed Tag.",
+            "Trusted: TLC/SANY, Expected() in spec/CatalogueOps.tla, the catalogue constants transcribed from the pinned "
+            "tree, ast.literal_eval of _INLINE_TAG_NAMES, the library's == for the pass-through clause, CPython.",
+            "TLA+ spec (Catalogue/CatalogueOps) enumerated exhaustively with TLC; every TLC-generated call replayed "
+            "into the code; recorded results validated by TLC trace spec (CatTrace)"),
 }
 
 NOT_YET = {}
